@@ -29,7 +29,7 @@ from ...type import (
     GraphQLNamedType,
     GraphQLOutputType,
     get_named_type,
-    is_interface_type,
+    is_composite_type,
     is_leaf_type,
     is_list_type,
     is_non_null_type,
@@ -884,9 +884,11 @@ def collect_fields_and_fragment_spreads(
     for selection in selection_set.selections:
         if isinstance(selection, FieldNode):
             field_name = selection.name.value
+            # look the field up like the executor does: `__typename` is a field of
+            # every composite type although it is not listed among its fields
             field_def = (
-                parent_type.fields.get(field_name)
-                if is_object_type(parent_type) or is_interface_type(parent_type)
+                context.schema.get_field(parent_type, field_name)
+                if is_composite_type(parent_type)
                 else None
             )
             response_name = selection.alias.value if selection.alias else field_name
